@@ -54,7 +54,7 @@ ASSUMPTIONS = [
     "within 4.6e-4 rad of +x or -x at the geometry the force was evaluated at",
 ]
 REQUIRED_MONITORS = ["fd_dirs_compared", "evaluator_pairs_compared", "padding_rows_checked", "excited_dirs_compared",
-                     "axis_aligned_dirs_compared", "sp2_dirs_compared"]
+                     "axis_aligned_dirs_compared", "sp2_dirs_compared", "dispersion_dirs_compared"]
 CASE_TIMEOUT = 600.0
 BUDGET_S = {"quick": float(os.environ.get("VERIF_BUDGET_QUICK", 200)), "thorough": float(os.environ.get("VERIF_BUDGET_THOROUGH", 1700))}
 
@@ -226,6 +226,18 @@ def gen_cases(tier, seed):
     lib.append(_lib_case(g, tier, method="PM3", name="NH4+", layout="padded", orient=_orient_generic()))
     lib.append(_lib_case(g, tier, method="MNDO", name="CH3.", layout="padded", orient=_orient_generic()))
     lib.append(_lib_case(g, tier, method="AM1", name="CH2O", layout="homog", sp2=1e-7, orient=_orient_generic(), conv=[2]))
+    # AM1 with the empirical dispersion term switched on (AM1-FS1): the pair term only acts beyond ~2.2-3.2 A, so it needs
+    # dimers / larger molecules; all three evaluators
+    disp = [[("C6H6", None, None)], [("CH4", "CH4", 3.8)], [("H2O", "H2O", 3.2)], [("CH4", "H2O", 4.5), ("C6H6", None, None)]]
+    if not quick:
+        disp += [[("CH4", "CH4", 3.2)], [("CH4", "CH4", 5.0)], [("H2O", "H2O", 4.0)], [("C2H4", "C2H4", 3.8)],
+                 [("NH3", "H2O", 3.5)], [("C2H6", None, None)], [("CH3OH", "CH4", 4.0), ("H2O", "H2O", 3.0)],
+                 [("C6H6", "CH4", 4.5)]]
+    for dm in disp:
+        for conv in ([[2]] if quick else [[2], [1]]):
+            lib.insert(0, {"kind": "dimer", "dimers": dm, "method": "AM1", "conv": conv, "sp2": None, "uhf": False,
+                           "modes": list(ALL_MODES), "orient": _orient_generic(), "dispersion": True,
+                           "layout": "single" if len(dm) == 1 else "padded", "seed": int(g.integers(0, 2**31))})
     # ---- element-pair matrix ---------------------------------------------------------------
     pairs = []
     scales = (0.85, 1.0, 1.35)
@@ -281,7 +293,8 @@ def _settings(case, mode, sp2=True):
         grad = "autodiff"
     return run.settings(case["method"], eps=SCF_EPS, converger=tuple(case["conv"]),
                         sp2=(case.get("sp2") if sp2 else None), uhf=bool(case.get("uhf")), grad=grad,
-                        excited=excited, active_state=active, scf_backward=scfb)
+                        excited=excited, active_state=active, scf_backward=scfb,
+                        extra=({"dispersion": True} if case.get("dispersion") else None))
 
 
 def _orient(X, orient, g, Z):
@@ -299,10 +312,41 @@ def _orient(X, orient, g, Z):
     return X @ R.T
 
 
+def make_dimer(name_a, name_b, dist, g, sigma=0.03):
+    """two library molecules, each distorted and randomly oriented, centres `dist` A apart; atoms sorted by Z."""
+    Za, Xa, _, _ = gen.molecule(name_a)
+    Zb, Xb, _, _ = gen.molecule(name_b)
+    for _ in range(100):
+        A = gen.distort(Xa, g, sigma=sigma) @ gen.haar(g).T
+        B = gen.distort(Xb, g, sigma=sigma) @ gen.haar(g).T
+        u = g.normal(size=3)
+        u /= np.linalg.norm(u)
+        A = A - A.mean(axis=0)
+        B = B - B.mean(axis=0) + dist * u
+        if np.linalg.norm(A[:, None, :] - B[None, :, :], axis=-1).min() >= 1.6:
+            break
+    Z = list(Za) + list(Zb)
+    X = np.vstack([A, B])
+    order = sorted(range(len(Z)), key=lambda i: -Z[i])
+    X = X[order]
+    X = X @ gen.generic_rotation(X, g).T
+    return [Z[i] for i in order], X
+
+
 def build_rows(case):
     """-> list of rows (Z, X, charge, mult), index list of rows to difference, species/coords of the batch."""
     g = np.random.default_rng(case["seed"])
     rows = []
+    if case["kind"] == "dimer":
+        for a, b, d in case["dimers"]:
+            if b is None:
+                Z, X0, _, _ = gen.molecule(a)
+                X = gen.distort(X0, g, sigma=0.03)
+                X = X @ gen.generic_rotation(X, g).T
+            else:
+                Z, X = make_dimer(a, b, d, g)
+            rows.append((Z, X + g.uniform(-3, 3, 3), 0, 1))
+        return rows, list(range(len(rows)))[:2]
     if case["kind"] == "pair":
         a, b = case["pair"]
         Z, X = gen.diatomic(a, b, case["dist"])
@@ -588,7 +632,7 @@ def run_case(case):
                 # evaluators and the difference quotients (they would only burn MAX_ITER iterations each)
                 mon["rows_not_converged"] += len(check)
                 return {"ineligible": "SCF flagged not converged at x for every checked row", "monitors": mon,
-                        "cells": ["notconverged/%s/%s" % (case["method"], case.get("mol") or "%d-%d" % tuple(case["pair"]))]}
+                        "cells": ["notconverged/%s/%s" % (case["method"], case.get("mol") or ("%d-%d" % tuple(case["pair"]) if "pair" in case else case["kind"]))]}
         if keep:
             try:
                 from vlib import obs14
@@ -714,6 +758,8 @@ def run_case(case):
                         mon["sp2_dirs_compared"] += 1
                     if case["orient"]["kind"] == "align":
                         mon["axis_aligned_dirs_compared"] += 1
+                    if case.get("dispersion"):
+                        mon["dispersion_dirs_compared"] = mon.get("dispersion_dirs_compared", 0) + 1
                     name = ("fd_sp2/" if case.get("sp2") else ("fd_excited/" if exc else "fd/")) + mo
                     over = upd(name, err, tol)
                     obs["max_fd_error_estimate"] = max(obs.get("max_fd_error_estimate", 0.0), float(fd["est"][k]))
@@ -727,6 +773,8 @@ def run_case(case):
                                             "row": r, "species": Z, "coords": X.tolist(), "charge": q, "mult": m,
                                             "dir": dirs[k].tolist()}})
         cells.append("/".join([case["method"], state, spin, conv_l, sp2_l, case["layout"]]))
+        if case.get("dispersion"):
+            cells.append("dispersion/%s/%s" % (case["method"], "+".join("%s-%s@%s" % d if d[1] else d[0] for d in case["dimers"])))
         for mo in live:
             cells.append("mode/%s/%s/%s/%s" % (case["method"], mo, state if exc else spin, orient_l))
         if case["kind"] == "pair":
